@@ -25,10 +25,10 @@ order with exactly the updates the walk applies to its target (`C05_entry_overla
 ignore-failure update that names a taken item is not among them
 (`C05_ignored_drop_chain`), and each scalar / unified key of an entry is the value of the one
 applied update that set it, or the base value (`C05_single_source`).
-Hypothesis of these theorems (a guard of the property's domain, implied by the driver's
-`dupWithin` guard): no update marked ignore-failure names one item twice (`NoDupItems`; an
-unmarked update that does fails the request). It cannot be dropped: `C05_walk_needs_nodup`
-is a chain with a repeated hugepage size on which walk and model differ.
+No hypothesis on the chain: an update that names one item twice (a repeated hugepage size or
+unified key) is treated by the walk as by the ledger — the second mention collides with the
+first, the update is not applied, only the items before the repeated one stay taken
+(`C05_walk_repeated_item` is such a chain).
 -/
 namespace Nri.Props.C05
 open Nri Nri.NApi Nri.Result Nri.Ledger Nri.UpdateWalk
@@ -176,30 +176,28 @@ private def chain3 : List (Plugin × Response) :=
 private def req3 : Resources := { pids := some 5 }
 private def base3 : Cid → Resources := specBase (.update (str "c0")) req3
 
-/-- **The model refines the walk.** For a request started in a fresh collector state and a chain
-    in which no ignore-failure update names one item twice, after a successful request
+/-- **The model refines the walk.** For a request started in a fresh collector state and any
+    chain, after a successful request
     (i) every entry of the reply's update list (third-party entries and the own entry) carries
     exactly the resources the specification walk yields for its target, and
     (ii) a `(target, item)` pair is taken in the walk iff it has an owner in the ledger (for
     every target other than the container being created). -/
 theorem C05_walk_refines (st0 st' : State) (rs : List (Plugin × Response))
     (h1 : st0.updates = []) (h2 : st0.own = none) (h3 : st0.owners = [])
-    (hnd : NoDupItems (flatUpdates rs))
     (h : run Quirks.fixed st0 (answeredAll rs) = .ok st') :
     (∀ e, some e ∈ replyUpdates st' →
        e.resources = some ((walk (baseOf st0) rs).get (baseOf st0) e.containerId)) ∧
     (∀ c it, st0.kind ≠ .create c →
        ((c, it) ∈ (walk (baseOf st0) rs).taken ↔ (st'.owners.owner c it).isSome = true)) := by
-  obtain ⟨rel, ok⟩ := run_rel (baseOf st0) rs st0 st' {} (rel_fresh st0 h1 h3) (entOK_fresh st0 h1 h2) hnd h
+  obtain ⟨rel, ok⟩ := run_rel (baseOf st0) rs st0 st' {} (rel_fresh st0 h1 h3) (entOK_fresh st0 h1 h2) h
   rw [← walk_eq] at rel
   refine ⟨fun e he => ?_, fun c it hc => ?_⟩
   · rw [replyUpdates_vals st' ok e he, rel.vals]
   · exact rel.taken c it (by rw [run_kind _ st0 st' _ h]; exact hc)
 
--- chain3 satisfies the hypotheses; the walk holds pids 1 / quota 4 / no shares for ctrA, and the
+-- on chain3 the walk holds pids 1 / quota 4 / no shares for ctrA, and the
 -- dropped update's claim of cpu shares is taken in the walk and owned (by 20-b) in the ledger
 example :
-    (∀ u ∈ flatUpdates chain3, u.ignoreFailure = true → (setsUpd u).Nodup) ∧
     (let r := (walk base3 chain3).get base3 (str "ctrA")
      (r.pids, (r.cpu.getD {}).shares, (r.cpu.getD {}).quota)) = (some 1, none, some 4) ∧
     (walk base3 chain3).taken.contains (str "ctrA", Item.cpuShares) = true ∧
@@ -216,7 +214,6 @@ example :
     Equality is structural equality of `Resources`. -/
 theorem C05_exact_fields (st0 st' : State) (req : Resources) (rs : List (Plugin × Response))
     (hinit : (∃ id, st0 = initUpdate id req) ∨ st0 = initStop ∨ ∃ c0, st0 = initCreate c0)
-    (hnd : NoDupItems (flatUpdates rs))
     (h : run Quirks.fixed st0 (answeredAll rs) = .ok st') :
     ∀ e, some e ∈ replyUpdates st' →
       e.resources = some ((walk (specBase st0.kind req) rs).get (specBase st0.kind req) e.containerId) := by
@@ -226,7 +223,7 @@ theorem C05_exact_fields (st0 st' : State) (req : Resources) (rs : List (Plugin 
     · exact ⟨baseOf_initStop req, rfl, rfl, rfl⟩
     · exact ⟨baseOf_initCreate c0 req, rfl, rfl, rfl⟩
   obtain ⟨hb, h1, h2, h3⟩ := hb
-  have := (C05_walk_refines st0 st' rs h1 h2 h3 hnd h).1
+  have := (C05_walk_refines st0 st' rs h1 h2 h3 h).1
   rw [hb] at this
   exact this
 
@@ -242,11 +239,10 @@ example :
     some plugins do not answer (`none`): the walk runs over the plugins that did. -/
 theorem C05_exact_fields_dropped (st0 st' : State) (req : Resources) (rs : List (Plugin × Option Response))
     (hinit : (∃ id, st0 = initUpdate id req) ∨ st0 = initStop ∨ ∃ c0, st0 = initCreate c0)
-    (hnd : NoDupItems (flatUpdates (answered rs)))
     (h : run Quirks.fixed st0 rs = .ok st') :
     ∀ e, some e ∈ replyUpdates st' →
       e.resources = some ((walk (specBase st0.kind req) (answered rs)).get (specBase st0.kind req) e.containerId) :=
-  C05_exact_fields st0 st' req (answered rs) hinit hnd (by rw [← run_answered]; exact h)
+  C05_exact_fields st0 st' req (answered rs) hinit (by rw [← run_answered]; exact h)
 
 -- chain3 with a plugin that is not subscribed between the second and the third
 example :
@@ -263,14 +259,13 @@ example :
     other update reaches it. -/
 theorem C05_entry_overlay (st0 st' : State) (rs : List (Plugin × Response))
     (h1 : st0.updates = []) (h2 : st0.own = none) (h3 : st0.owners = [])
-    (hnd : NoDupItems (flatUpdates rs))
     (h : run Quirks.fixed st0 (answeredAll rs) = .ok st') :
     ∀ e, some e ∈ replyUpdates st' →
       e.resources = some
         (((appliedFrom (baseOf st0) {} (flatUpdates rs)).filter fun u => u.containerId = e.containerId).foldl
           overlayUpd (baseOf st0 e.containerId)) := by
   intro e he
-  rw [(C05_walk_refines st0 st' rs h1 h2 h3 hnd h).1 e he, walk_eq, foldl_get]
+  rw [(C05_walk_refines st0 st' rs h1 h2 h3 h).1 e he, walk_eq, foldl_get]
   rfl
 
 -- of the five updates of chain3 the walk applies four: all but the ignore-failure one
@@ -289,7 +284,6 @@ example :
     ignore-failure: `C05_conflict_fails`.) -/
 theorem C05_ignored_drop_chain (st0 st' : State) (rs : List (Plugin × Response))
     (h1 : st0.updates = []) (h2 : st0.own = none) (h3 : st0.owners = [])
-    (hnd : NoDupItems (flatUpdates rs))
     (h : run Quirks.fixed st0 (answeredAll rs) = .ok st')
     (pre post : List Update) (u : Update) (hflat : flatUpdates rs = pre ++ u :: post)
     (it : Item) (hit : it ∈ setsUpd u)
@@ -300,7 +294,7 @@ theorem C05_ignored_drop_chain (st0 st' : State) (rs : List (Plugin × Response)
             appliedFrom (baseOf st0) (simUpdate (baseOf st0) (pre.foldl (simUpdate (baseOf st0)) {}) u) post).filter
           fun v => v.containerId = e.containerId).foldl overlayUpd (baseOf st0 e.containerId)) := by
   intro e he
-  rw [C05_entry_overlay st0 st' rs h1 h2 h3 hnd h e he, hflat, appliedFrom_append]
+  rw [C05_entry_overlay st0 st' rs h1 h2 h3 h e he, hflat, appliedFrom_append]
   simp only [appliedFrom, not_applies_of_taken _ u it hit htaken, Bool.false_eq_true, ↓reduceIte, List.nil_append]
 
 -- chain3 splits at its third update (20-b's, ignore-failure); its item pids is taken there
@@ -327,7 +321,6 @@ example :
     read as `other`). -/
 theorem C05_single_source (st0 st' : State) (rs : List (Plugin × Response))
     (h1 : st0.updates = []) (h2 : st0.own = none) (h3 : st0.owners = [])
-    (hnd : NoDupItems (flatUpdates rs))
     (h : run Quirks.fixed st0 (answeredAll rs) = .ok st')
     (e : Update) (he : some e ∈ replyUpdates st') (res : Resources) (hres : e.resources = some res)
     (it : Item) :
@@ -336,7 +329,7 @@ theorem C05_single_source (st0 st' : State) (rs : List (Plugin × Response))
         (∀ v ∈ pre ++ post, it ∉ setsUpd v) ∧ fieldVal it res = fieldVal it r) ∨
     ((∀ v ∈ app, it ∉ setsUpd v) ∧ fieldVal it res = fieldVal it (baseOf st0 e.containerId)) := by
   intro app
-  have hval := C05_entry_overlay st0 st' rs h1 h2 h3 hnd h e he
+  have hval := C05_entry_overlay st0 st' rs h1 h2 h3 h e he
   rw [hres] at hval
   have hres' : res = app.foldl overlayUpd (baseOf st0 e.containerId) := Option.some.inj hval
   have hpw : app.Pairwise fun v w => ∀ it ∈ setsUpd v, it ∉ setsUpd w := by
@@ -377,23 +370,25 @@ example :
     fieldVal Item.cpuShares ((walk base3 chain3).get base3 (str "ctrA")) = fieldVal Item.cpuShares (base3 (str "ctrA")) ∧
     fieldVal Item.cpuQuota ((walk base3 chain3).get base3 (str "ctrA")) = FVal.int (some 4) := by decide
 
-/-- **The hypothesis `NoDupItems` is needed.** An ignore-failure update naming hugepage size
-    `2M` twice and then a block I/O class: the ledger stops at the repeated size, so the class
-    is not claimed and a later plugin's class is applied (`some "y"`); the walk's dropped branch
-    (`free.eraseDups`) takes the class as well and yields none. Such chains are outside the
-    property's stated domain (driver guard `dupWithin`: "one response names an item twice"). -/
-theorem C05_walk_needs_nodup :
+/-- **An update naming an item twice.** An ignore-failure update names hugepage size `2M` twice
+    and then a block I/O class: ledger and walk both stop at the repeated size — the update is
+    dropped, only the first `2M` stays taken, the class is not — so the later plugin's class is
+    applied, and the returned entry equals the walk (before the repair of the walk's dropped
+    branch the walk took the class too and yielded none here). -/
+theorem C05_walk_repeated_item :
     let dup : List (Plugin × Response) :=
       [(str "10-a", { updates := [updOf (str "ctrA")
           { hugepages := [{ pageSize := str "2M", limit := 1 }, { pageSize := str "2M", limit := 2 }],
             blockioClass := some (str "x") } true] }),
        (str "20-b", { updates := [updOf (str "ctrA") { blockioClass := some (str "y") }] })]
-    ¬ (∀ u ∈ flatUpdates dup, u.ignoreFailure = true → (setsUpd u).Nodup) ∧
+    ¬ (∀ u ∈ flatUpdates dup, (setsUpd u).Nodup) ∧
     (match run Quirks.fixed initStop (answeredAll dup) with
-     | .ok st => st.updates.map fun e => (e.resources.getD {}).blockioClass
-     | .error _ => []) = [some (str "y")] ∧
-    ((walk (specBase .stop {}) dup).get (specBase .stop {}) (str "ctrA")).blockioClass = none := by decide
-
+     | .ok st => st.updates.map fun e =>
+         ((e.resources.getD {}).blockioClass, (e.resources.getD {}).hugepages.length,
+          decide (e.resources = some ((walk (specBase .stop {}) dup).get (specBase .stop {}) e.containerId)))
+     | .error _ => []) = [(some (str "y"), 0, true)] ∧
+    (walk (specBase .stop {}) dup).taken =
+      [(str "ctrA", Item.hugepage (str "2M")), (str "ctrA", Item.blockio)] := by decide
 
 /-! ### the hypotheses are satisfiable -/
 
